@@ -631,6 +631,17 @@ def _k1(ctx: Context) -> None:
             a0, a1 = x.args
             if isinstance(a1, ast.Subscript) and _u(a1.slice) == _u(a0):
                 okl = True
+    # by value (through temporaries / parameters of an inlined helper): the record is <data>[<alias>] for the alias iterated
+    # over <data>, or the two halves of one item of <data>.items()
+    lcfg = ctx.cfg(ld.qualname)
+    for n, c in ctx.nodes_calling_name(lcfg, "load_pairing"):
+        if len(c.args) == 2:
+            t0, t1 = strip_sites(T.of(lcfg, n, c.args[0])), strip_sites(T.of(lcfg, n, c.args[1]))
+            if t1[0] == "sub" and len(t1) == 3 and t1[2] == t0 and t0[0] in ("iter", "each") and t0[1] == t1[1]:
+                okl = True
+            if t0[0] == "sub" and t1[0] == "sub" and t0[1] == t1[1] and t0[1][0] in ("iter", "each") and t0[2] == ("const", 0) and t1[2] == ("const", 1) \
+                    and t0[1][1][0] == "call" and t0[1][1][1][0] == "attr" and t0[1][1][1][2] == "items":
+                okl = True
     ck.check("C20.K1", okl, "load_data feeds (alias, data[alias]) to load_pairing", f"{ctx.fkey(ld)}:record",
              "load_data no longer loads every alias with its own record", ld.loc())
     encs = []
